@@ -2,109 +2,25 @@ package vfs
 
 import (
 	"context"
-	"fmt"
-	"sort"
 	"testing"
 
 	"verif/mc"
 
-	"github.com/buildbarn/bb-remote-execution/pkg/filesystem/virtual"
-	"github.com/buildbarn/bb-storage/pkg/clock"
 	"github.com/buildbarn/bb-storage/pkg/filesystem/path"
-	"github.com/buildbarn/bb-storage/pkg/random"
 )
 
 func mk(name string) path.Component { return path.MustNewComponent(name) }
 
-type tree struct {
-	root   virtual.PrepopulatedDirectory
-	d1, d2 virtual.PrepopulatedDirectory
-	e      virtual.PrepopulatedDirectory
-}
-
-func mustDir(p virtual.PrepopulatedDirectory, name string) virtual.PrepopulatedDirectory {
-	d, err := p.CreateAndEnterPrepopulatedDirectory(mk(name))
-	if err != nil {
-		panic(err)
-	}
-	return d
-}
-
-// buildTree creates /d1/{a/,e/} and /d2/b/ on the real implementation.
-func buildTree() *tree {
-	root := virtual.NewInMemoryPrepopulatedDirectory(nil, nil, nil, virtual.NewFUSEHandleAllocator(random.FastThreadSafeGenerator), sort.Sort, func(string) bool { return false }, clock.SystemClock, virtual.CaseSensitiveComponentNormalizer, func(virtual.AttributesMask, *virtual.Attributes) {}, virtual.NoNamedAttributesFactory)
-	t := &tree{root: root}
-	t.d1 = mustDir(root, "d1")
-	t.d2 = mustDir(root, "d2")
-	mustDir(t.d1, "a")
-	t.e = mustDir(t.d1, "e")
-	mustDir(t.d2, "b")
-	return t
-}
-
-type call struct {
-	name string
-	fn   func(t *tree) string
-}
-
 var ctx = context.Background()
 
-func rename(from func(*tree) virtual.PrepopulatedDirectory, a string, to func(*tree) virtual.PrepopulatedDirectory, b string) func(*tree) string {
-	return func(t *tree) string {
-		_, _, s := from(t).VirtualRename(ctx, mk(a), to(t), mk(b))
-		return fmt.Sprint(s)
-	}
-}
-
-func d1(t *tree) virtual.PrepopulatedDirectory   { return t.d1 }
-func d2(t *tree) virtual.PrepopulatedDirectory   { return t.d2 }
-func de(t *tree) virtual.PrepopulatedDirectory   { return t.e }
-func root(t *tree) virtual.PrepopulatedDirectory { return t.root }
-
-func concurrentScenario(name string, calls ...call) *mc.Scenario {
-	return &mc.Scenario{
-		Name:     name,
-		Props:    []string{"C14"},
-		Liveness: []string{"C14"},
-		Livelock: []string{"C14"},
-		Panics:   []string{"C14"},
-		Bounds:   map[string]int{"quick": 3, "thorough": -1},
-		Build: func(x *mc.X) {
-			t := buildTree()
-			for _, c := range calls {
-				c := c
-				x.Go(c.name, func() {
-					r := c.fn(t)
-					x.CheckNoLocksHeld(c.name)
-					x.Outcome("%s=%s", c.name, r)
-				})
-			}
-		},
-	}
-}
-
+// TestMC is the entry point used by /verif/check (see /verif/mc/README.md).
+//
+//   - seq-*   (Engine B): operation sequences on the real
+//     InMemoryPrepopulatedDirectory against the reference hierarchy of
+//     model_test.go (C13), with a lock-leak probe after every call (C14).
+//   - conc-*  (Engine A): 2-3 concurrent calls on a canned tree under the
+//     controlled scheduler (C14 deadlock / livelock / leak, structural
+//     invariants at the end).
 func TestMC(t *testing.T) {
-	scenarios := []*mc.Scenario{
-		concurrentScenario("rename-opposite",
-			call{"T1", rename(d1, "a", d2, "a2")},
-			call{"T2", rename(d2, "b", d1, "b2")},
-			call{"T3", func(t *tree) string {
-				var a virtual.Attributes
-				_, s := t.d1.VirtualLookup(ctx, mk("a"), virtual.AttributesMaskChangeID, &a)
-				return fmt.Sprint(s)
-			}}),
-		{
-			Name: "enter-removed", Props: []string{"C14"}, Liveness: []string{"C14"}, Panics: []string{"C14"},
-			Build: func(x *mc.X) {
-				t := buildTree()
-				x.Go("T1", func() {
-					t.d1.VirtualRemove(ctx, mk("e"), true, true)
-					_, err := t.e.CreateAndEnterPrepopulatedDirectory(mk("x"))
-					x.CheckNoLocksHeld("CreateAndEnterPrepopulatedDirectory")
-					x.Outcome("err=%v", err)
-				})
-			},
-		},
-	}
-	mc.Main(t, scenarios, nil)
+	mc.Main(t, buildScenarios(), buildSeqs())
 }
